@@ -205,6 +205,12 @@ def analyse(built, variant, cmd, rc, out, err, wall):
         if cover is not None:
             r.cover_failed.add(cover)
             continue
+        if not clause_ids and not src_lines:
+            # the failure sits entirely in /verif's own spec/lemma text: the specification (or its
+            # proof) no longer holds for the extracted definitions -> contract must be revisited
+            where = '; '.join('%s [%s]' % (sp.get('where'), (sp.get('text') or '')[:100]) for sp in info['spans'])
+            r.undecided.append('specification lemma not discharged (%s): %s' % (msg, where))
+            continue
         # name the obligation
         exits = [x for x in src_lines if 'exit' in x[2] or 'end of the function' in x[2]]
         if exits:
